@@ -52,6 +52,10 @@ type snapCase struct {
 	TornPct    int      `json:"torn_pct,omitempty"`
 	RealFS     bool     `json:"real_fs,omitempty"`
 	SerfLayer  bool     `json:"serf_layer,omitempty"`
+	// StallLeave: the graceful leave is issued while the snapshot goroutine is
+	// stuck in a slow write, and the owned clock moves on by StallMs meanwhile
+	StallLeave bool `json:"stall_leave,omitempty"`
+	StallMs    int  `json:"stall_ms,omitempty"`
 }
 
 var hostileNames = []string{
@@ -404,7 +408,11 @@ func (r *snapRun) apply(op hOp) bool {
 			r.aliveAtLeave[k] = v
 		}
 		r.leaveSeen = true
-		r.snap.Leave()
+		if r.c.StallLeave && r.fs != nil {
+			r.stalledLeave()
+		} else {
+			r.snap.Leave()
+		}
 		r.left = true
 		r.barrier()
 		r.noteClock()
@@ -416,6 +424,53 @@ func (r *snapRun) apply(op hOp) bool {
 		}
 	}
 	return true
+}
+
+// stalledLeave issues the leave while the stream goroutine is stuck in a slow
+// write of an earlier event, and lets the owned clock run on meanwhile. Leave()
+// has to wait for the goroutine however long that takes: the leave is issued,
+// so it has to be remembered.
+func (r *snapRun) stalledLeave() {
+	// make the next append flush (the 500 ms rule), so that it reaches the disk
+	r.clk.Advance(600 * time.Millisecond)
+	reached, release := armStall()
+	defer release()
+	ev := serf.UserEvent{LTime: serf.LamportTime(r.maxEvent + 1), Name: "before-leave", Payload: []byte("p")}
+	r.maxEvent++
+	r.eventHist[r.maxEvent] = true
+	r.in <- ev
+	select {
+	case <-r.out:
+	case <-time.After(syncTimeout):
+		r.problem = "stall: event not forwarded"
+		return
+	}
+	select {
+	case <-reached:
+	case <-time.After(2 * time.Second):
+		// the append did not reach the disk (e.g. it went into a compaction
+		// first): no stall this time, plain leave
+		release()
+		r.waitBacklog()
+		r.barrier()
+		r.snap.Leave()
+		return
+	}
+	done := make(chan struct{})
+	go func() { defer close(done); r.snap.Leave() }()
+	time.Sleep(2 * time.Millisecond) // let Leave() park
+	ms := r.c.StallMs
+	if ms <= 0 {
+		ms = 300
+	}
+	r.clk.Advance(time.Duration(ms) * time.Millisecond)
+	time.Sleep(time.Millisecond)
+	release()
+	select {
+	case <-done:
+	case <-time.After(syncTimeout):
+		r.problem = "stall: Leave did not return"
+	}
 }
 
 // noteClock records a value the snapshot may legitimately hold as member
